@@ -148,6 +148,8 @@ func checkC16(c *Ctx) {
 	// ---- R5 package identity
 	checkPackageIdentity(c, "C16.R5.package-identity", pk)
 	checkImportsIndexed(c, "C16.R6.imports-indexed", pk)
+	checkTagPartsVerbatim(c, "C16.R4.json-tags", pk)
+	checkModelsRescanned(c, "C16.R7.models-rescanned", pk)
 }
 
 func checkCompositeKinds(c *Ctx, pk *packages.Package) {
@@ -409,6 +411,23 @@ func checkJSONTags(c *Ctx, rule string, pk *packages.Package) {
 				sort.Strings(ks)
 				got = strings.Join(ks, ",")
 				okKinds = under && got == "IsBoolean,IsFloat,IsInteger,IsString"
+				// encoding/json looks through ONE pointer, and only an unnamed one: no loop, and the pointer
+				// assertion is applied to the type itself, not to its Underlying()
+				ast.Inspect(pd.Body, func(n ast.Node) bool {
+					switch x := n.(type) {
+					case *ast.ForStmt, *ast.RangeStmt:
+						okKinds = false
+						got += " (unwraps pointers in a loop)"
+					case *ast.TypeAssertExpr:
+						if goan.ExprString(x.Type) == "*types.Pointer" {
+							if _, isIdent := ast.Unparen(x.X).(*ast.Ident); !isIdent {
+								okKinds = false
+								got += " (pointer test on " + goan.ExprString(x.X) + ")"
+							}
+						}
+					}
+					return true
+				})
 			}
 		}
 		c.Check(pred != nil && okKinds, rule, "codescan.schemaBuilder.buildFromStruct › ',string' applies to the kinds encoding/json quotes", c.posOf(pk, fd.Pos()), "decided on the field's type: underlying kind in {string, float, integer, boolean}",
@@ -725,3 +744,77 @@ var embeddedOnlyRx = regexp.MustCompile(`if !\w+\.(Embedded|Anonymous)\(\) \{`)
 // embeddedOnlyLoop: the loop body skips every field that is not embedded (whatever the loop
 // variable is called).
 func embeddedOnlyLoop(bodyText string) bool { return embeddedOnlyRx.MatchString(bodyText) }
+
+
+// checkTagPartsVerbatim: encoding/json takes the comma-separated parts of the json key as they are
+// written (`json:"n, string"` has the unknown option " string"): the scanner must not normalise
+// them — no store into an element of the tagOptions value, no strings.* call in its methods.
+func checkTagPartsVerbatim(c *Ctx, rule string, pk *packages.Package) {
+	info := pk.TypesInfo
+	stores := ""
+	for _, fd := range load.AllFuncs(pk) {
+		fd := fd
+		ast.Inspect(fd.Body, func(n ast.Node) bool {
+			as, ok := n.(*ast.AssignStmt)
+			if !ok {
+				return true
+			}
+			for _, l := range as.Lhs {
+				if ix, ok := l.(*ast.IndexExpr); ok && goan.NamedName(info.TypeOf(ix.X)) == "tagOptions" {
+					stores = c.posOf(pk, as.Pos())
+				}
+			}
+			return true
+		})
+	}
+	transforms := ""
+	for _, m := range []string{"tagOptions.Contain", "tagOptions.Name"} {
+		fd := load.FuncDecl(pk, m)
+		if fd == nil {
+			c.Anchor(rule, "codescan."+m, "not found")
+			continue
+		}
+		ast.Inspect(fd.Body, func(n ast.Node) bool {
+			if call, ok := n.(*ast.CallExpr); ok {
+				if fn := goan.Callee(info, call); fn != nil && fn.Pkg() != nil && fn.Pkg().Path() == "strings" {
+					transforms = m + " calls " + goan.CalleeName(fn)
+				}
+			}
+			return true
+		})
+	}
+	c.Check(stores == "" && transforms == "", rule, "codescan.tagOptions › the parts of the json key are taken verbatim", "", "no store into the parts, no normalisation in Contain/Name",
+		fmt.Sprintf("the parts of the json tag are rewritten before they are interpreted (store at %q; %s): encoding/json does not trim or fold them — `json:\"n, string\"` is a field named n without the string option", stores, transforms))
+}
+
+// checkModelsRescanned: every swagger:model declaration is built on every scan; the only success
+// return of buildModels / buildDiscoveredSchema before their last statement is the scanModels switch.
+func checkModelsRescanned(c *Ctx, rule string, pk *packages.Package) {
+	c.Rule(rule, "specBuilder.buildModels builds every model declaration: neither it nor buildDiscoveredSchema returns successfully before the schema is built, except when models are not scanned at all", 2)
+	info := pk.TypesInfo
+	for _, name := range []string{"specBuilder.buildModels", "specBuilder.buildDiscoveredSchema"} {
+		fd := load.FuncDecl(pk, name)
+		if fd == nil {
+			c.Anchor(rule, "codescan."+name, "not found")
+			continue
+		}
+		var early []string
+		goan.WalkGuards(info, fd.Body, func(n ast.Node, guards []goan.Lit, _ []ast.Stmt) {
+			rs, ok := n.(*ast.ReturnStmt)
+			if !ok || len(rs.Results) != 1 || !goan.IsNil(info, rs.Results[0]) {
+				return
+			}
+			if len(fd.Body.List) > 0 && fd.Body.List[len(fd.Body.List)-1] == ast.Stmt(rs) {
+				return
+			}
+			for _, g := range guards {
+				if !g.Early && goan.LastSel(g.E) == "scanModels" && !g.Pos {
+					return
+				}
+			}
+			early = append(early, c.posOf(pk, rs.Pos()))
+		})
+		c.Check(len(early) == 0, rule, "codescan."+name+" › no model is passed over", c.posOf(pk, fd.Pos()), "no early success return",
+			fmt.Sprintf("%s returns successfully at %v before the model is built: a swagger:model whose name is already defined (e.g. in the --input document) is not scanned again and the stale definition is emitted", name, early))
+	}
+}
